@@ -243,6 +243,7 @@ fn test(case: &Case, st: &mut Stats, counting: bool, nplans: usize, panics_only:
                 // recursive removals fail half-way in listing order - not generated there)
                 let mid = if raw.mode % 4 == 2 && case.base.cfg.contains_overlay() { 3 } else { raw.mode % 4 };
                 let mid_name = ["a second append session", "create_file + write", "remove_file", "nothing"][mid as usize];
+                let mut sync_mid: Option<Tree> = None;
                 let sync_opened = {
                     use std::io::Write;
                     let vp = at(&s.root, path).map_err(|e| (step, e.to_string()))?;
@@ -265,6 +266,8 @@ fn test(case: &Case, st: &mut Stats, counting: bool, nplans: usize, panics_only:
                                 }
                                 _ => {}
                             }
+                            // what is visible while the first session is still open
+                            sync_mid = Some(snapshot(&s.root).tree);
                             let _ = h.write_all(bytes);
                             let _ = h.flush();
                             drop(h);
@@ -297,6 +300,12 @@ fn test(case: &Case, st: &mut Stats, counting: bool, nplans: usize, panics_only:
                                     let _ = vp.remove_file().await;
                                 }
                                 _ => {}
+                            }
+                            if let Some(sm) = &sync_mid {
+                                let am = asnapshot(t).await;
+                                if &am.tree != sm {
+                                    return Err((step, format!("append session on '{}' still open, after {} ({} bytes): async tree differs from sync tree: {:?}", path, mid_name, other.len(), diff_trees(sm, &am.tree))));
+                                }
                             }
                             let _ = h.write_all(bytes).await;
                             let _ = h.flush().await;
@@ -595,7 +604,7 @@ fn test_walkrm(case: &WalkRmCase, st: &mut Stats, counting: bool, panics_only: b
         let mut pool = case.pool.clone();
         if case.cfg.contains_overlay() {
             for n in pool.iter_mut() {
-                n.truncate(200);
+                crate::gen::cut_name(n, 200);
             }
         }
         let nl = case.cfg.overlay_layers().max(1);
